@@ -17,3 +17,5 @@ def main(ctx):
         shutdown = None
     if shutdown is not None:
         shutdown.run(ctx, 'C08')
+    from checks import poolreal
+    poolreal.run(ctx, 'C08')     # one signalled worker with a slow exit callback; terminate() during a refill
